@@ -56,6 +56,48 @@ func init() {
 				fmt.Printf("blocking %s/%s n=%d min_expected_ns=%d elapsed_ns=%d %s\n", sc.name, pname, sc.n, int64(sc.minimum), int64(el), verdict)
 			}
 		}
+		// a caller whose context ends (deadline or cancel) before the wait has elapsed must get that context's error: it must
+		// never be told that it acquired the permit before the instant at which the permit becomes usable
+		const W = 80 * time.Millisecond
+		ctxPaths := map[string]func(l ratelimiter.RateLimiter[any], ctx context.Context) error{
+			"AcquirePermit":            func(l ratelimiter.RateLimiter[any], ctx context.Context) error { return l.AcquirePermit(ctx) },
+			"AcquirePermits":           func(l ratelimiter.RateLimiter[any], ctx context.Context) error { return l.AcquirePermits(ctx, 1) },
+			"AcquirePermitWithMaxWait": func(l ratelimiter.RateLimiter[any], ctx context.Context) error { return l.AcquirePermitWithMaxWait(ctx, time.Second) },
+			"policy": func(l ratelimiter.RateLimiter[any], ctx context.Context) error {
+				return failsafe.NewExecutor[any](failsafe.Policy[any](l)).WithContext(ctx).Run(func() error { return nil })
+			},
+		}
+		for _, kind := range []string{"smooth", "bursty"} {
+			for pname, acquire := range ctxPaths {
+				for _, how := range []string{"deadline", "cancel"} {
+					var l ratelimiter.RateLimiter[any]
+					if kind == "smooth" {
+						l = ratelimiter.SmoothBuilderWithMaxRate[any](W).WithMaxWaitTime(time.Second).Build()
+					} else {
+						l = ratelimiter.BurstyBuilder[any](1, W).WithMaxWaitTime(time.Second).Build()
+					}
+					l.TryAcquirePermit() // the next permit is usable one interval / period after the limiter was built
+					var ctx context.Context
+					var cancel context.CancelFunc
+					if how == "deadline" {
+						ctx, cancel = context.WithTimeout(context.Background(), 8*time.Millisecond)
+					} else {
+						ctx, cancel = context.WithCancel(context.Background())
+						go func() { time.Sleep(8 * time.Millisecond); cancel() }()
+					}
+					start := time.Now()
+					err := acquire(l, ctx)
+					el := time.Since(start)
+					cancel()
+					verdict := "ok"
+					if err == nil && el < W-15*time.Millisecond {
+						verdict = "EARLY(acquired although its context ended first)"
+						bad++
+					}
+					fmt.Printf("blocking %s/%s-ctx-%s n=1 min_expected_ns=%d elapsed_ns=%d %s\n", kind, pname, how, int64(W), int64(el), verdict)
+				}
+			}
+		}
 		if bad > 0 {
 			return 1
 		}
